@@ -170,6 +170,9 @@ func ruleGate(r *Run, p *Prog, withSampler bool) {
 	for i, pa := range paths {
 		ret, ok := pa.Exit.(*ssa.Return)
 		cons := fmt.Sprintf("%s/path#%d", FnName(should), i)
+		if pa.Infeasible() || nilContradiction(pa) {
+			continue // e.g. `s := activeSampler()` is nil on this path and the path takes `s != nil`
+		}
 		if !ok || len(ret.Results) != 1 {
 			r.Ob("GATE", cons, p.Pos(pa.Exit.Pos()), false, true, "the level gate has a path that does not return a decision (panic or malformed return)")
 			continue
@@ -208,7 +211,7 @@ func ruleGate(r *Run, p *Prog, withSampler bool) {
 		}
 		// result must be the sampler's answer for this level
 		call, isCall := res.(*ssa.Call)
-		okS := isCall && call.Call.IsInvoke() && call.Call.Method.Name() == "Sample" && isFieldOfParam(call.Call.Value, should, 0, "sampler") &&
+		okS := isCall && call.Call.IsInvoke() && call.Call.Method.Name() == "Sample" && isFieldOfParam(pa.Resolve(call.Call.Value), should, 0, "sampler") &&
 			len(call.Call.Args) == 1 && isLvl(call.Call.Args[0])
 		if !okS {
 			msg += ": returns " + descr(res) + ", which is neither a constant nor l.sampler.Sample(lvl)"
@@ -236,6 +239,32 @@ func ruleGate(r *Run, p *Prog, withSampler bool) {
 	})
 	// GlobalLevel must read the level atomically from the one global
 	r.Count("gate_paths", len(paths))
+}
+
+// nilContradiction: the path tests the same value (phis resolved along the path; two loads of one
+// field of the same object count as the same value) against nil with both outcomes.
+func nilContradiction(pa Path) bool {
+	type t struct {
+		v   ssa.Value
+		neq bool
+	}
+	var seen []t
+	for _, c := range pa.Cmps() {
+		x, y := pa.Resolve(c.X), pa.Resolve(c.Y)
+		if isNilConst(x) {
+			x, y = y, x
+		}
+		if !isNilConst(y) || (c.Op != token.EQL && c.Op != token.NEQ) {
+			continue
+		}
+		for _, s := range seen {
+			if sameValue(s.v, x) && s.neq != (c.Op == token.NEQ) {
+				return true
+			}
+		}
+		seen = append(seen, t{x, c.Op == token.NEQ})
+	}
+	return false
 }
 
 func tern(c bool, a, b string) string {
